@@ -1,128 +1,139 @@
 (* C04 — parsed class structure reflects the source declarations.  Property theorems only; proofs in
-   Proofs/C04_listener.v.  `do_element v path (ECls …) st` is the executable model of the ASTListener walking one
-   class definition (any listener state `st`, so the statements hold for top-level and nested classes alike);
-   `v` selects the code as it is (`head_variant`) or with the repairs fixes/C04_*.diff.
-   Declarative reading of the class text:
-     class_syms v secs  one symbol per declarator of every component clause, in source order: name, type,
-                        keyword list, dimensions (spec_dims), effective visibility of its section (eff_vis),
-                        comment, class modification followed by the declaration value as one `value` argument
-                        (spec_cm); order numbers and object identities erased (erase_sym);
-     class_exts, fold_imp (imports_els …), cnames_els, sel init secs  likewise for extends / imports / nested
-                        classes / equations and statements of the (non-)initial sections. *)
-From Coq Require Import String List Bool Arith.
-From PV Require Import Model.C04_listener Proofs.C04_listener.
+   Proofs/C04_listener.v (one class) and Proofs/C04_walk.v (whole walk).
+   `do_element v path (ECls …) st` is the executable model of the ASTListener walking one class definition (any
+   listener state `st`: top-level and nested classes alike); `run_file_full v cs` walks a file and also returns the
+   final listener state, whose ghost component `l_trace` lists (order, object ids) of the symbols in creation order
+   = source order.  `head_variant` is /repo HEAD; `prefix_variant` is the code before the three repairs this check
+   led to (7cea29a, 480cfc0, e08c00c), kept for the `_refuted` witnesses.
+   Ideal reading of a class text (nothing in it depends on the listener):
+     ideal_syms secs   one symbol per declarator of every component clause, in source order: name, type, keyword
+                       list, dimensions = declarator subscripts followed by clause subscripts (ideal_dims),
+                       visibility = label of the declaring section, comment, class modification followed by the
+                       declaration value as one `value` argument (spec_cm); order and object ids erased;
+     ideal_exts, fold_imp (imports_els …), cnames_els, sel init secs   likewise extends / imports / nested classes /
+                       equations and statements of the (non-)initial sections. *)
+From Coq Require Import String List Bool Arith Sorting.Sorted Sorting.Permutation.
+From PV Require Import Model.C04_listener Proofs.C04_listener Proofs.C04_walk.
 Import ListNotations.
 Open Scope string_scope.
 
-(* every declared component exactly once, in source order, with name, type, prefixes, dimensions, visibility,
-   comment and modifications as declared; component names are pairwise distinct.  Unbounded: any number of
-   sections, clauses, declarators, nested classes. *)
-Theorem C04_symbols v path ct n cm secs eqs algs st r cls st' :
-  do_element v path (ECls ct n cm secs eqs algs) st = Ok ((r, cls), st') ->
+(* MAIN: every declared component exactly once, in source order, with name, type, prefixes, dimensions, visibility,
+   comment and modifications as declared; names pairwise distinct.  Unbounded: any number of sections, clauses,
+   declarators, nested classes; any listener state. *)
+Theorem C04_symbols path ct n cm secs eqs algs st r cls st' :
+  do_element head_variant path (ECls ct n cm secs eqs algs) st = Ok ((r, cls), st') ->
   exists own nested, cls = own :: nested
-    /\ map erase_sym (o_syms own) = class_syms v secs
+    /\ map erase_sym (o_syms own) = ideal_syms secs
     /\ map s_name (o_syms own) = names_els (all_els secs)
     /\ NoDup (map s_name (o_syms own)).
 Proof.
   intros H. destruct st as [k l], st' as [k' l']. pose proof (class_ok _ _ _ _ _ _ _ _ _ _ _ _ _ _ H) as C.
   destruct C as (own & nested & E & _ & _ & _ & Hs & _). subst cls.
-  exists own, nested. destruct (class_names_nodup _ _ _ _ _ _ _ _ _ _ _ _ _ H) as [A B]. auto.
+  exists own, nested. destruct (class_names_nodup _ _ _ _ _ _ _ _ _ _ _ _ _ H) as [A B].
+  rewrite class_syms_head in Hs. auto.
 Qed.
 Print Assumptions C04_symbols.
 
-(* equations and statements in source order, each in its initial or non-initial list; extends clauses, imports and
-   nested classes attached to the class that declares them (and not to the enclosing class, whose symbol table and
-   imports are untouched) *)
-Theorem C04_sections v path ct n cm secs eqs algs k l r cls k' l' :
-  do_element v path (ECls ct n cm secs eqs algs) (k, l) = Ok ((r, cls), (k', l')) ->
+(* equations and statements in source order, each in its initial or non-initial list; extends clauses (with the
+   visibility of their section), imports and nested classes attached to the class that declares them — the
+   enclosing class gains the class name only *)
+Theorem C04_sections path ct n cm secs eqs algs k l r cls k' l' :
+  do_element head_variant path (ECls ct n cm secs eqs algs) (k, l) = Ok ((r, cls), (k', l')) ->
   exists own nested, cls = own :: nested
     /\ o_path own = (path ++ [n])%list /\ o_ctype own = ct /\ o_comment own = cm
     /\ o_eqs own = sel false eqs /\ o_ieqs own = sel true eqs
     /\ o_sts own = sel false algs /\ o_ists own = sel true algs
-    /\ o_exts own = class_exts v secs
-    /\ fold_imp v (imports_els (all_els secs)) [] = Ok (o_imports own)
+    /\ o_exts own = ideal_exts secs
+    /\ fold_imp head_variant (imports_els (all_els secs)) [] = Ok (o_imports own)
     /\ o_classes own = cnames_els (all_els secs)
     /\ k_classes k' = (k_classes k ++ [n])%list /\ k_seen k' = k_seen k /\ k_imports k' = k_imports k.
 Proof.
   intros H. apply class_ok in H.
   destruct H as (own & nested & E & A1 & A2 & A3 & _ & A4 & A5 & A6 & A7 & A8 & A9 & A10 & _ & B1 & B2 & B3).
-  exists own, nested. repeat split; assumption.
+  rewrite class_exts_head in A4. exists own, nested. repeat split; assumption.
 Qed.
 Print Assumptions C04_sections.
 
-(* a component declared twice in one class: the class text is rejected, whatever the listener state *)
+(* a component declared twice in one class: the class text is rejected (any variant, any listener state) *)
 Theorem C04_duplicate v path ct n cm secs eqs algs st :
   ~ NoDup (names_els (all_els secs)) -> exists e, do_element v path (ECls ct n cm secs eqs algs) st = Err e.
 Proof. exact (class_duplicate v path ct n cm secs eqs algs st). Qed.
 Print Assumptions C04_duplicate.
 
-(* declaration order, PARTIAL: the declarators of one clause get consecutive order numbers starting at the
-   listener's counter, which advances by their number (and the clause's symbols are the declared ones).
-   Not proved: that the counter never decreases across extends clauses and nested classes, i.e. that the order
-   numbers of a whole class increase strictly in source order (tied by the correspondence and judged by the
-   oracle on every generated class). *)
-Theorem C04_order_partial v cl seen l ss seen' l' :
-  do_clause v cl (seen, l) = Ok (ss, (seen', l')) ->
-  map erase_sym ss = map (spec_sym v Private cl) (c_decls cl)
-  /\ map s_order ss = seq (l_count l) (length (c_decls cl))
-  /\ l_count l' = l_count l + length (c_decls cl).
-Proof. intros H. apply do_clause_ok in H. tauto. Qed.
-Print Assumptions C04_order_partial.
+(* declaration order over a whole file (any number of classes, nested classes, extends clauses with
+   modifications, clauses): the order numbers in creation order = source order (l_trace) increase strictly, they
+   are exactly the order numbers (and object ids) of the symbols of the parsed classes, and within every class the
+   symbol table — which C04_symbols shows to be in source order — has strictly increasing order numbers *)
+Theorem C04_order v cs out lf :
+  run_file_full v cs = Ok (out, lf) -> Forall is_cls cs ->
+  StronglySorted lt (map kord (l_trace lf))
+  /\ Permutation (l_trace lf) (map key (flat_map o_syms out))
+  /\ Forall (fun c => StronglySorted lt (map s_order (o_syms c))) out.
+Proof. exact (file_order v cs out lf). Qed.
+Print Assumptions C04_order.
 
-(* no sharing, PARTIAL: exitComponent_clause ends with the per-declarator copies (tail_copy), after which the
-   prefixes / dimensions / type objects of the clause's symbols are pairwise distinct, provided the first symbol's
-   objects were allocated before the copies.  Not proved: that proviso for every reachable listener state, and
-   distinctness across clauses (both tied by the correspondence on id() patterns and judged by the oracle). *)
-Theorem C04_no_sharing_partial v cl D0 ss n :
-  exists ss2 n2, fst (close_clause v cl D0 ss n) = fst (tail_copy ss2 n2) /\ length ss2 = length ss
-  /\ forall s0 tl, ss2 = s0 :: tl -> s_pid s0 < n2 -> s_did s0 < n2 -> s_tid s0 < n2 ->
-       NoDup (map s_pid (fst (tail_copy ss2 n2))) /\ NoDup (map s_did (fst (tail_copy ss2 n2)))
-       /\ NoDup (map s_tid (fst (tail_copy ss2 n2))).
-Proof.
-  destruct (close_clause_tail v cl D0 ss n) as (ss2 & n2 & A & B). exists ss2, n2. repeat split; try assumption;
-    subst ss2; destruct (tail_copy_no_sharing s0 tl n2) as (X & Y & Z); assumption.
-Qed.
-Print Assumptions C04_no_sharing_partial.
+(* no sharing after the walk of a whole file: no two symbols — of the same clause, of different clauses, of
+   different classes — point at the same prefixes / dimensions / type object.  (The allocation stamp only grows;
+   the first symbol of a clause keeps the clause's objects, which are older than every copy.) *)
+Theorem C04_no_sharing v cs out lf :
+  run_file_full v cs = Ok (out, lf) -> Forall is_cls cs ->
+  NoDup (map s_pid (flat_map o_syms out)) /\ NoDup (map s_did (flat_map o_syms out))
+  /\ NoDup (map s_tid (flat_map o_syms out)).
+Proof. exact (file_no_sharing v cs out lf). Qed.
+Print Assumptions C04_no_sharing.
 
-(* the ideal reading: with the repairs — or on texts that repeat no section label / do not combine clause and
-   declarator subscripts — the effective visibility is the label of the declaring section, the dimensions are the
-   declarator's subscripts followed by the clause's, and the modification is the class modification followed by
-   the declaration value *)
-Theorem C04_ideal v :
-  (forall (secs : list (label * list element)), v_allsec v = true \/ labels_once secs = true ->
-     eff_vis v secs = map (fun s => vis_of_label (fst s)) secs)
+(* the same refinement for every variant, with the variant's effective visibility / dimensions; and when these
+   coincide with the ideal ones (repair in, or the text repeats no section label / does not combine clause and
+   declarator subscripts) *)
+Theorem C04_variants v :
+  (forall path ct n cm secs eqs algs st r cls st',
+      do_element v path (ECls ct n cm secs eqs algs) st = Ok ((r, cls), st') ->
+      exists own nested, cls = own :: nested /\ map erase_sym (o_syms own) = class_syms v secs)
+  /\ (forall (secs : list (label * list element)), v_allsec v = true \/ labels_once secs = true ->
+        eff_vis v secs = map (fun s => vis_of_label (fst s)) secs)
   /\ (forall cl d, v_dimsmerge v = true \/ c_dims cl = None \/ d_dims d = None -> spec_dims v cl d = ideal_dims cl d)
   /\ (forall m, decl_cm m = spec_cm m).
-Proof. split; [|split]; [intros; now apply eff_vis_ideal|intros; now apply spec_dims_ideal|exact decl_cm_spec]. Qed.
-Print Assumptions C04_ideal.
+Proof.
+  split; [|split; [|split]]; [|intros; now apply eff_vis_ideal|intros; now apply spec_dims_ideal|exact decl_cm_spec].
+  intros path ct n cm secs eqs algs [k l] r cls [k' l'] H. apply class_ok in H.
+  destruct H as (own & nested & E & _ & _ & _ & Hs & _). eauto.
+Qed.
+Print Assumptions C04_variants.
 
-(* recorded defects of the unrepaired code (findings/known.d/C04.json):
-   `model M public Real a; protected Real b; public Real c; end M;` -> a is PRIVATE *)
+(* the defects of the code before the repairs (findings, now fixed):
+   `model M public Real a; protected Real b; public Real c; end M;` -> a was PRIVATE *)
 Theorem C04_visibility_refuted :
-  vis_of_first (run_file head_variant [vis_witness]) = [("a", Private); ("b", Protected); ("c", Public)]
-  /\ vis_of_first (run_file repaired_variant [vis_witness]) = [("a", Public); ("b", Protected); ("c", Public)].
+  vis_of_first (run_file prefix_variant [vis_witness]) = [("a", Private); ("b", Protected); ("c", Public)]
+  /\ vis_of_first (run_file head_variant [vis_witness]) = [("a", Public); ("b", Protected); ("c", Public)].
 Proof. exact vis_refuted. Qed.
 Print Assumptions C04_visibility_refuted.
 
-(* `model M Real[2] x[3]; end M;` -> dimensions [[2]], the declarator's 3 is lost *)
+(* `model M Real[2] x[3]; end M;` -> dimensions were [[2]], the declarator's 3 lost *)
 Theorem C04_dimensions_refuted :
-  dims_of_first (run_file head_variant [dims_witness]) = [[["2"]]]
-  /\ dims_of_first (run_file repaired_variant [dims_witness]) = [[["3"; "2"]]].
+  dims_of_first (run_file prefix_variant [dims_witness]) = [[["2"]]]
+  /\ dims_of_first (run_file head_variant [dims_witness]) = [[["3"; "2"]]].
 Proof. exact dims_refuted. Qed.
 Print Assumptions C04_dimensions_refuted.
+
+(* `import A.{C,D,E};` bound C and the single name "D,E" *)
+Theorem C04_import_refuted :
+  import_names prefix_variant ["C"; "D"; "E"] = ["C"; "D,E"] /\ import_names head_variant ["C"; "D"; "E"] = ["C"; "D"; "E"].
+Proof. split; reflexivity. Qed.
+Print Assumptions C04_import_refuted.
 
 (* non-vacuity: a class with two prefixes, clause and declarator dimensions, a modification with a declaration
    value, three sections, an extends clause with a modification, an import, a nested class, initial and non-initial
    sections is accepted; orders 0 1 3 5 (the extends modification and the nested class's symbol take 2 and 4) *)
 Example C04_example :
   exists own nested st',
-    do_element head_variant [] example_class (mkK [] [] [], mkL 0 false 0) = Ok ((ROther, own :: nested), st')
+    do_element head_variant [] example_class (mkK [] [] [], init_lst) = Ok ((ROther, own :: nested), st')
     /\ map s_name (o_syms own) = ["a"; "b"; "i"; "p"]
     /\ map s_order (o_syms own) = [0; 1; 3; 5]
     /\ map s_vis (o_syms own) = [Private; Private; Public; Protected]
     /\ map s_prefixes (o_syms own) = [["parameter"; "input"]; ["parameter"; "input"]; []; []]
     /\ o_eqs own = ["(= a b)"; "(= i 2)"] /\ o_ieqs own = ["(= a 1)"]
     /\ NoDup (map s_pid (o_syms own)) /\ NoDup (map s_did (o_syms own)) /\ NoDup (map s_tid (o_syms own))
-    /\ length nested = 1 /\ labels_once [(Unl, tt); (Pub, tt); (Pro, tt)] = true.
+    /\ length nested = 1 /\ labels_once [(Unl, tt); (Pub, tt); (Pro, tt)] = true
+    /\ map kord (l_trace (snd st')) = [0; 1; 3; 4; 5].
 Proof. exact example_ok. Qed.
 Print Assumptions C04_example.
